@@ -191,13 +191,15 @@ def run(ctx):
         adv = pg.independent_kexinit_reader(payload)
         dec = [[n.decode('utf-8', 'replace') for n in l] for l in adv]
         want = {'kex': dec[0], 'key': dec[1], 'enc': dec[3], 'mac': dec[5]}
+        # a notice before the identification string, long enough that the tool's 2048-byte read ends inside the banner line (seed C01-9)
+        pre = (b'N' * r.randint(2005, 2046) + b'\r\n') if k % 4 == 1 else (b'Welcome\r\n' if k % 4 == 3 else b'')
         srv = fakenet.Server(banner=b'SSH-2.0-OpenSSH_8.0', kexinit_payload=b'\x14' + payload, hostkeys={'ssh-ed25519': fakenet.ed25519_blob(), 'rsa-sha2-512': fakenet.rsa_blob(3072)},
-                             gex=lambda a, b_, c: 3072 if c >= 3072 else None)
+                             gex=lambda a, b_, c: 3072 if c >= 3072 else None, pre_banner=pre)
         for extra in ([], ['-j']):
             net = fakenet.FakeNet({'10.1.0.1': srv})
             code, text = fakenet.run_main(['-n', '--skip-rate-test'] + extra + ['10.1.0.1'], net)
             cov.add(('e2e', payload, tuple(extra)), True, tags=['whole-audit', 'json' if extra else 'text'])
-            inp = {'kexinit_payload_hex': payload.hex(), 'whole_audit': True, 'args': extra}
+            inp = {'kexinit_payload_hex': payload.hex(), 'whole_audit': True, 'args': extra, 'pre_banner_len': len(pre)}
             if extra:
                 try:
                     doc = json.loads(text)
